@@ -4,17 +4,31 @@
 From Coq Require Import List Bool Arith String.
 Import ListNotations.
 From Lime Require Import Base.Res Hs.Types Hs.Server Hs.Monitor Corr.HsServer Corr.HsChecks.
-(* besides the scripted handshakes: a peer that sends one envelope that cannot start a session and vanishes at
-   once, over every transport of a real Server (an implementation-only direct check: Model B plays its inputs in
-   lock-step and does not represent the in-process transport's "already closed when the reply is attempted") *)
+Open Scope string_scope.
+Open Scope list_scope.
+(* besides the scripted handshakes: a peer that sends one session envelope and vanishes at once, over every
+   transport of a real Server (listener, dial, Send, Close).  The peer does not wait for anything, so the only
+   observations are the callback counters and the goroutine census; they are compared with Model B's run over
+   the two-item script [that envelope; end of stream] under the configuration the scenario uses (guest scheme,
+   everyone is allowed, encryption and compression "none"). *)
 Inductive case :=
 | KScript (c : scase)
-| KAbrupt (est_cb fin_cb : nat) (ended : bool).
+| KAbrupt (kind : tkind) (first : cses) (est_cb fin_cb : nat) (ended : bool).
+
+Definition abrupt_conf (k : tkind) : sconf :=
+  {| sc_comp := ["none"]; sc_enc := ["none"]; sc_schemes := ["guest"]; sc_kind := k; sc_tls_ok := false; sc_sid := "SID" |}.
+Definition allow_all : oracle := {| o_auth := fun _ _ _ _ => ARole; o_reg := fun f => RNode (100 + f) |}.
+Definition count_ev (p : ev -> bool) (t : list ev) : nat := List.length (filter p t).
+Definition abrupt_model (k : tkind) (first : cses) : nat * nat * bool :=
+  let r := handle_channel s_repaired (abrupt_conf k) allow_all [CSes first; CEof] in
+  (count_ev (fun e => match e with EstCb => true | _ => false end) (rr_trace r),
+   count_ev (fun e => match e with FinCb => true | _ => false end) (rr_trace r),
+   rr_handler_ended r).
 
 Definition check (c : case) : bool :=
   match c with
   | KScript s => c14_check s
-  | KAbrupt est fin ended => Nat.eqb est 0 && Nat.eqb fin 0 && ended
+  | KAbrupt _ _ est fin ended => Nat.eqb est 0 && Nat.eqb fin 0 && ended
   end.
 Definition agrees (c : case) : bool :=
   match c with
@@ -22,7 +36,10 @@ Definition agrees (c : case) : bool :=
       match c14_proj (k_obs s), c14_proj (model_obs s) with
       | (a, b, d), (a', b', d') => evs_eqb a a' && Bool.eqb b b' && Bool.eqb d d'
       end
-  | KAbrupt _ _ _ => true
+  | KAbrupt k first est fin ended =>
+      match abrupt_model k first with
+      | (e, f, d) => Nat.eqb est e && Nat.eqb fin f && Bool.eqb ended d
+      end
   end.
 Definition mismatches (cs : list case) : list nat := bad_indices agrees cs.
 Definition violations (cs : list case) : list nat := bad_indices check cs.
